@@ -54,7 +54,11 @@ func (rw *readWriter) Write(p []byte) (n int, err error) {
 }
 
 func (rw *readWriter) Close() error {
+	// The flag is set under the condition's lock: otherwise the change can fall
+	// between the reader's test and its Wait and the wake-up is lost.
+	rw.m.Lock()
 	rw.closed.Store(true)
+	rw.m.Unlock()
 	rw.cv.Broadcast()
 	rw.Wait()
 
